@@ -114,6 +114,12 @@ class FSA:
         else:
             self._out_dict = FSA._defaultify_out_dict(vert_dict)
 
+            # vertices which only appear as the target of an edge
+            for neighbors in vert_dict.values():
+                for v in neighbors:
+                    if v not in self._out_dict:
+                        self._out_dict[v] = defaultdict(list)
+
             self._build_in_dict()
             self._build_graph_dict()
 
